@@ -1,4 +1,5 @@
 import Proofs.DeltaRoot
+import Proofs.Spec
 /-!
 The round trip for flat dictionaries (JSON objects with scalar values): groundwork on how each phase
 of `Delta.__add__` acts on a root dictionary.
@@ -507,5 +508,766 @@ theorem applyDelta_flat (d : DeltaD) (kvs : List (PyVal × PyVal)) (hs : StrKeys
       rw [kV]; intro hm; exact hdx2 i.k hm i.k (List.mem_map.2 ⟨i, hi, rfl⟩) rfl
     rw [(g1 i.k hk).2 n1]
     exact hg
+
+/-! ### the diff of two flat dictionaries -/
+
+theorem leafDiff_shape' (steps : List Step) (a b : PyVal) :
+    leafDiff steps a b = [] ∨ ∃ ud, leafDiff steps a b = [(.valuesChanged, { steps := steps, t1 := some a, t2 := some b, udiff := ud })] := by
+  unfold leafDiff
+  split
+  all_goals first
+    | (split
+       · exact Or.inl rfl
+       · exact Or.inr ⟨_, rfl⟩)
+    | exact Or.inl rfl
+
+theorem pyEq_refl_basic' (b : PyVal) (h : isBasic b = true) : pyEq b b = true := by
+  cases b <;> simp [isBasic] at h <;> simp [pyEq, numEq, numOf]
+
+/-- the diff of two scalars at a level -/
+theorem diffV_basic (cfg : DCfg) (al : Align) (hashOf : PyVal → String) (st : List Step) (a b : PyVal) (ha : isBasic a = true) :
+    (diffV cfg al hashOf st a b).tree =
+      if typeName a != typeName b then [(.typeChanges, { steps := st, t1 := some a, t2 := some b })] else leafDiff st a b := by
+  cases a <;> simp [isBasic] at ha <;> simp only [diffV] <;> split <;> rfl
+
+/-- no iterable entry: nothing to merge -/
+theorem mutualAddRemoves_noiter (t : Tree) (h : ∀ e ∈ t, e.1 ≠ Cat.iterAdded ∧ e.1 ≠ Cat.iterRemoved) : mutualAddRemoves t = t := by
+  have ha : t.filter (fun e => e.1 == Cat.iterAdded) = [] := by
+    rw [List.filter_eq_nil_iff]; intro e he; simpa using (h e he).1
+  have hr : t.filter (fun e => e.1 == Cat.iterRemoved) = [] := by
+    rw [List.filter_eq_nil_iff]; intro e he; simpa using (h e he).2
+  unfold mutualAddRemoves
+  simp only [ha, hr, List.any_nil, Bool.and_false, Bool.not_false, List.filterMap_nil, List.append_nil]
+  rw [List.filter_eq_self]
+  intro e _
+  rfl
+
+theorem distinctKeys_of_nodup_str : ∀ (ks : List PyVal), (∀ k ∈ ks, ∃ s, k = .str s) → ks.Nodup → distinctKeys ks = true
+  | [], _, _ => rfl
+  | k :: ks, hs, hn => by
+    rw [List.nodup_cons] at hn
+    have hk := hs k (List.mem_cons_self ..)
+    simp only [distinctKeys, Bool.and_eq_true, Bool.not_eq_true', List.any_eq_false]
+    refine ⟨⟨?_, ?_⟩, distinctKeys_of_nodup_str ks (fun x hx => hs x (List.mem_cons_of_mem _ hx)) hn.2⟩
+    · intro x hx h
+      exact hn.1 ((keyEq_str_iff hk (hs x (List.mem_cons_of_mem _ hx))).1 h ▸ hx)
+    · intro x hx h
+      exact hn.1 ((keyEq_str_iff (hs x (List.mem_cons_of_mem _ hx)) hk).1 h ▸ hx)
+
+theorem strictKeys_str (K : List PyVal) (h : ∀ k ∈ K, ∃ s, k = .str s) : StrictKeys K :=
+  fun k hk k' hk' he => (keyEq_str_iff (h k hk) (h k' hk')).1 he
+
+theorem hashable_str {k : PyVal} (h : ∃ s, k = .str s) : hashable k = true := by
+  obtain ⟨s, rfl⟩ := h; rfl
+
+/-- the tree of the diff of two flat dictionaries with string keys (when the "too different" shortcut does not fire) -/
+theorem flat_tree {cfg : DCfg} (hp : Diff.Plain cfg) (al : Align) (hashOf : PyVal → String) (kvs1 kvs2 : List (PyVal × PyVal))
+    (hs1 : StrKeys kvs1) (hs2 : StrKeys kvs2) (hn1 : (kvs1.map (·.1)).Nodup) (hn2 : (kvs2.map (·.1)).Nodup)
+    (hpriv : ∀ k, k ∈ kvs1.map (·.1) ∨ k ∈ kvs2.map (·.1) → (cfg.ignorePrivate && isPrivate k) = false)
+    (hthr : belowThreshold cfg ((kvs2.map (·.1)).filter (fun k => (kvs1.map (·.1)).any (fun k' => keyEq k' k))).length
+              ((kvs2.map (·.1)) ++ (kvs1.map (·.1)).filter (fun k => !(kvs2.map (·.1)).any (fun k' => keyEq k' k))).length = false) :
+    (diffV cfg al hashOf [] (.dict kvs1) (.dict kvs2)).tree =
+      ((kvs2.map (·.1)).filter (fun k => !(kvs1.map (·.1)).any (fun k' => keyEq k' k))).map
+          (fun k => (Cat.dictAdded, addedLevel [] .dict k ((dictGet kvs2 k).getD .none))) ++
+      ((kvs1.map (·.1)).filter (fun k => !(kvs2.map (·.1)).any (fun k' => keyEq k' k))).map
+          (fun k => (Cat.dictRemoved, removedLevel [] .dict k ((dictGet kvs1 k).getD .none))) ++
+      ((kvs2.map (·.1)).filter (fun k => (kvs1.map (·.1)).any (fun k' => keyEq k' k))).flatMap
+          (fun k => (diffV cfg al hashOf [⟨.dict, some k, some k⟩] (valAt kvs1 k) (valAt kvs2 k)).tree) := by
+  have hk1 := keysOf_plain hp [] kvs1 (fun k hk => hpriv k (Or.inl hk))
+  have hk2 := keysOf_plain hp [] kvs2 (fun k hk => hpriv k (Or.inr hk))
+  have hstr1 : ∀ k ∈ kvs1.map (·.1), ∃ s, k = .str s := by
+    intro k hk; obtain ⟨p, hp', rfl⟩ := List.mem_map.1 hk; exact hs1 p hp'
+  have hstr2 : ∀ k ∈ kvs2.map (·.1), ∃ s, k = .str s := by
+    intro k hk; obtain ⟨p, hp', rfl⟩ := List.mem_map.1 hk; exact hs2 p hp'
+  let K := kvs1.map (·.1) ++ kvs2.map (·.1)
+  have hK : StrictKeys K := strictKeys_str K (fun k hk => by
+    rcases List.mem_append.1 hk with h | h
+    · exact hstr1 k h
+    · exact hstr2 k h)
+  have hdk1 := distinctKeys_of_nodup_str _ hstr1 hn1
+  have hdk2 := distinctKeys_of_nodup_str _ hstr2 hn2
+  have hkk1 : ∀ k ∈ kvs1.map (·.1), hashable k = true ∧ k ∈ K := fun k hk => ⟨hashable_str (hstr1 k hk), List.mem_append_left _ hk⟩
+  have hkk2 : ∀ k ∈ kvs2.map (·.1), hashable k = true ∧ k ∈ K := fun k hk => ⟨hashable_str (hstr2 k hk), List.mem_append_right _ hk⟩
+  conv => lhs; unfold diffV
+  simp only [hk1, hk2, hp.ex, List.isEmpty_nil, if_true, hthr, Bool.false_eq_true, if_false]
+  rw [Result.tree_append]
+  generalize hT : (List.foldl _ ({} : Result) _).tree = T
+  have hfl := foldl_children_flat' _ _ (fun _ _ => rfl) _ _ T hT
+  subst hfl
+  simp only [List.nil_append]
+  congr 1
+  apply flatMap_congr'
+  intro k hk
+  obtain ⟨hk2m, hany⟩ := List.mem_filter.1 hk
+  rw [List.any_eq_true] at hany
+  obtain ⟨k', hk'1, hke⟩ := hany
+  have : k' = k := (keyEq_str_iff (hstr1 k' hk'1) (hstr2 k hk2m)).1 hke
+  subst this
+  obtain ⟨⟨ka, v1⟩, hm10, he1⟩ := List.mem_map.1 hk'1
+  obtain ⟨⟨kb, v2⟩, hm20, he2⟩ := List.mem_map.1 hk2m
+  simp only at he1 he2
+  subst he1
+  have hm2 : (ka, v2) ∈ kvs2 := by rw [← he2]; exact hm20
+  have hh : hashable ka = true := hashable_str (hstr1 ka hk'1)
+  rw [children_find (skipSteps_plain hp) al hashOf K hK [] kvs1 kvs2 hdk1 hkk1 hdk2 hkk2 (kvs2.map (·.1)) (fun k hk => hk) ka v1 v2 hm10 hm2 hk2m
+    (hpriv ka (Or.inl hk'1))]
+  simp only [valAt, dictGet_self' kvs1 ka v1 hdk1 hh hm10, dictGet_self' kvs2 ka v2 hdk2 hh hm2, Option.getD_some, List.nil_append]
+
+/-! ### the payload built from that tree -/
+
+/-- entries of one category, converted -/
+def catMap {β} (c : Cat) (F : Cat × Level → Option β) (t : Tree) : List β := (t.filter (fun e => e.1 == c)).filterMap F
+
+theorem catMap_append {β} (c : Cat) (F : Cat × Level → Option β) (t u : Tree) : catMap c F (t ++ u) = catMap c F t ++ catMap c F u := by
+  simp [catMap, List.filter_append, List.filterMap_append]
+
+theorem catMap_flatMap {β α} (c : Cat) (F : Cat × Level → Option β) (l : List α) (g : α → Tree) :
+    catMap c F (l.flatMap g) = l.flatMap (fun a => catMap c F (g a)) := by
+  simp only [catMap, List.filter_flatMap, List.filterMap_flatMap]
+
+theorem catMap_other {β} (c c' : Cat) (F : Cat × Level → Option β) (t : Tree) (h : ∀ e ∈ t, e.1 = c') (hne : c' ≠ c) : catMap c F t = [] := by
+  unfold catMap
+  have : t.filter (fun e => e.1 == c) = [] := by
+    rw [List.filter_eq_nil_iff]; intro e he; rw [h e he]; simpa using hne
+  rw [this]; rfl
+
+theorem catMap_same {β} (c : Cat) (F : Cat × Level → Option β) (t : Tree) (h : ∀ e ∈ t, e.1 = c) : catMap c F t = t.filterMap F := by
+  unfold catMap
+  rw [List.filter_eq_self.2]
+  intro e he; rw [h e he]; simp
+
+/-- the entry a pair of scalars under key `k` contributes to the tree -/
+def childTree (k a b : PyVal) : Tree :=
+  if typeName a != typeName b then [(.typeChanges, { steps := [⟨.dict, some k, some k⟩], t1 := some a, t2 := some b })]
+  else leafDiff [⟨.dict, some k, some k⟩] a b
+
+/-- the `values_changed` entry of the payload for key `k` -/
+def vcChange (directed : Bool) (k a b : PyVal) : Change :=
+  { path := [k], oldValue := if directed then Option.none else some a, newValue := some b }
+
+/-- the `type_changes` entry of the payload for key `k` -/
+def tcChange (directed always : Bool) (k a b : PyVal) : Change :=
+  let incl := match castTo (typeName b) a with
+    | some c => !(pyEq c b)
+    | Option.none => true
+  { path := [k], oldType := typeName a, newType := typeName b,
+    oldValue := if directed then Option.none else (if incl || always then some a else Option.none),
+    newValue := if incl || always then some b else Option.none }
+
+def vcF (directed : Bool) : Cat × Level → Option Change := fun e => do
+  let p ← sidePath e.2.steps false
+  let p2 ← sidePath e.2.steps true
+  pure ((fun (c : Change) => if directed then { c with oldValue := Option.none } else c)
+    { path := p, newPath := if p == p2 then Option.none else some p2, oldValue := e.2.t1, newValue := e.2.t2 })
+
+theorem childTree_cases (k a b : PyVal) :
+    (typeName a ≠ typeName b ∧ childTree k a b = [(.typeChanges, { steps := [⟨.dict, some k, some k⟩], t1 := some a, t2 := some b })]) ∨
+    (typeName a = typeName b ∧ childTree k a b = []  ∧ leafDiff [⟨.dict, some k, some k⟩] a b = []) ∨
+    (typeName a = typeName b ∧ ∃ ud, childTree k a b = [(.valuesChanged, { steps := [⟨.dict, some k, some k⟩], t1 := some a, t2 := some b, udiff := ud })]) := by
+  unfold childTree
+  by_cases ht : typeName a = typeName b
+  · have : (typeName a != typeName b) = false := by simpa using ht
+    simp only [this, Bool.false_eq_true, if_false]
+    rcases leafDiff_shape' [⟨.dict, some k, some k⟩] a b with h | ⟨ud, h⟩
+    · exact Or.inr (Or.inl ⟨ht, h, h⟩)
+    · exact Or.inr (Or.inr ⟨ht, ud, h⟩)
+  · have : (typeName a != typeName b) = true := by simpa using ht
+    simp only [this, if_true]
+    exact Or.inl ⟨ht, trivial⟩
+
+
+def tcF (directed always : Bool) : Cat × Level → Option Change := fun e => do
+  let p ← sidePath e.2.steps false
+  let p2 ← sidePath e.2.steps true
+  let a := e.2.t1.getD .none
+  let b := e.2.t2.getD .none
+  let incl := match castTo (typeName b) a with
+    | some c => !(pyEq c b)
+    | Option.none => true
+  pure ((fun (c : Change) => if directed then { c with oldValue := Option.none } else c)
+    { path := p, newPath := if p == p2 then Option.none else some p2, oldType := typeName a, newType := typeName b,
+      oldValue := if incl || always then some a else Option.none,
+      newValue := if incl || always then some b else Option.none })
+
+def plainF : Cat × Level → Option (DPath × PyVal) := fun e => (sidePath e.2.steps false).map (fun p => (p, itemOf e.2))
+
+theorem build_fields (directed always : Bool) (t1 t2 : PyVal) (T : Tree) :
+    (buildDelta directed always t1 t2 ⟨T, []⟩).valuesChanged = catMap .valuesChanged (vcF directed) T ∧
+    (buildDelta directed always t1 t2 ⟨T, []⟩).typeChanges = catMap .typeChanges (tcF directed always) T ∧
+    (buildDelta directed always t1 t2 ⟨T, []⟩).dictAdded = catMap .dictAdded plainF T ∧
+    (buildDelta directed always t1 t2 ⟨T, []⟩).dictRemoved = catMap .dictRemoved plainF T := by
+  refine ⟨?_, ?_, ?_, ?_⟩ <;> simp only [buildDelta, catMap] <;> rfl
+
+theorem build_empty (directed always : Bool) (t1 t2 : PyVal) (T : Tree)
+    (h : ∀ e ∈ T, e.1 = .typeChanges ∨ e.1 = .valuesChanged ∨ e.1 = .dictAdded ∨ e.1 = .dictRemoved) :
+    (buildDelta directed always t1 t2 ⟨T, []⟩).setAdded = [] ∧ (buildDelta directed always t1 t2 ⟨T, []⟩).setRemoved = [] ∧
+    (buildDelta directed always t1 t2 ⟨T, []⟩).opcodes = [] ∧ (buildDelta directed always t1 t2 ⟨T, []⟩).iterAdded = [] ∧
+    (buildDelta directed always t1 t2 ⟨T, []⟩).iterRemoved = [] := by
+  have hf : ∀ c : Cat, c ≠ .typeChanges → c ≠ .valuesChanged → c ≠ .dictAdded → c ≠ .dictRemoved → T.filter (fun e => e.1 == c) = [] := by
+    intro c h1 h2 h3 h4
+    rw [List.filter_eq_nil_iff]
+    intro e he
+    rcases h e he with h' | h' | h' | h' <;> rw [h'] <;> simp <;> first | exact h1.symm | exact h2.symm | exact h3.symm | exact h4.symm
+  have f1 := hf .setAdded (by decide) (by decide) (by decide) (by decide)
+  have f2 := hf .setRemoved (by decide) (by decide) (by decide) (by decide)
+  have f3 := hf .iterAdded (by decide) (by decide) (by decide) (by decide)
+  have f4 := hf .iterRemoved (by decide) (by decide) (by decide) (by decide)
+  refine ⟨?_, ?_, ?_, ?_, ?_⟩ <;> simp [buildDelta, f1, f2, f3, f4, groupSet]
+
+/-- what the entry of one key contributes to each field of the payload -/
+theorem catMap_child (directed always : Bool) (k a b : PyVal) (hk : (k == k) = true) :
+    catMap .dictAdded plainF (childTree k a b) = [] ∧ catMap .dictRemoved plainF (childTree k a b) = [] ∧
+    ((typeName a ≠ typeName b ∧ catMap .typeChanges (tcF directed always) (childTree k a b) = [tcChange directed always k a b] ∧
+        catMap .valuesChanged (vcF directed) (childTree k a b) = []) ∨
+     (typeName a = typeName b ∧ leafDiff [⟨.dict, some k, some k⟩] a b = [] ∧ catMap .typeChanges (tcF directed always) (childTree k a b) = [] ∧
+        catMap .valuesChanged (vcF directed) (childTree k a b) = []) ∨
+     (typeName a = typeName b ∧ catMap .typeChanges (tcF directed always) (childTree k a b) = [] ∧
+        catMap .valuesChanged (vcF directed) (childTree k a b) = [vcChange directed k a b])) := by
+  rcases childTree_cases k a b with ⟨ht, h⟩ | ⟨ht, h, hl⟩ | ⟨ht, ud, h⟩
+  · rw [h]
+    refine ⟨by simp [catMap], by simp [catMap], Or.inl ⟨ht, ?_, by simp [catMap]⟩⟩
+    cases directed <;> simp [catMap, tcF, tcChange, sidePath, Step.param, hk] <;> first | rfl | exact ⟨rfl, rfl⟩
+  · rw [h]
+    exact ⟨rfl, rfl, Or.inr (Or.inl ⟨ht, hl, rfl, rfl⟩)⟩
+  · rw [h]
+    refine ⟨by simp [catMap], by simp [catMap], Or.inr (Or.inr ⟨ht, by simp [catMap], ?_⟩)⟩
+    cases directed <;> simp [catMap, vcF, vcChange, sidePath, Step.param, hk]
+
+theorem catMap_added (ks : List PyVal) (val : PyVal → PyVal) :
+    catMap .dictAdded plainF (ks.map (fun k => (Cat.dictAdded, addedLevel [] .dict k (val k)))) = ks.map (fun k => (([k] : DPath), val k)) ∧
+    (∀ {β : Type} (c : Cat) (F : Cat × Level → Option β), c ≠ .dictAdded → catMap c F (ks.map (fun k => (Cat.dictAdded, addedLevel [] .dict k (val k)))) = []) := by
+  constructor
+  · rw [catMap_same _ _ _ (by intro e he; obtain ⟨k, _, rfl⟩ := List.mem_map.1 he; rfl), List.filterMap_map]
+    induction ks with
+    | nil => rfl
+    | cons k ks ih =>
+      simp only [List.filterMap_cons, List.map_cons, Function.comp] at ih ⊢
+      rw [ih]
+      simp [plainF, addedLevel, sidePath, Step.param, itemOf]
+  · intro β c F hne
+    exact catMap_other c .dictAdded F _ (by intro e he; obtain ⟨k, _, rfl⟩ := List.mem_map.1 he; rfl) (Ne.symm hne)
+
+theorem catMap_removed (ks : List PyVal) (val : PyVal → PyVal) :
+    catMap .dictRemoved plainF (ks.map (fun k => (Cat.dictRemoved, removedLevel [] .dict k (val k)))) = ks.map (fun k => (([k] : DPath), val k)) ∧
+    (∀ {β : Type} (c : Cat) (F : Cat × Level → Option β), c ≠ .dictRemoved → catMap c F (ks.map (fun k => (Cat.dictRemoved, removedLevel [] .dict k (val k)))) = []) := by
+  constructor
+  · rw [catMap_same _ _ _ (by intro e he; obtain ⟨k, _, rfl⟩ := List.mem_map.1 he; rfl), List.filterMap_map]
+    induction ks with
+    | nil => rfl
+    | cons k ks ih =>
+      simp only [List.filterMap_cons, List.map_cons, Function.comp] at ih ⊢
+      rw [ih]
+      simp [plainF, removedLevel, sidePath, Step.param, itemOf]
+  · intro β c F hne
+    exact catMap_other c .dictRemoved F _ (by intro e he; obtain ⟨k, _, rfl⟩ := List.mem_map.1 he; rfl) (Ne.symm hne)
+
+/-- two string-keyed dictionaries that hold `==` values under the same keys are `==` -/
+theorem pyEq_dict_of_lookup (a b : List (PyVal × PyVal)) (hsa : StrKeys a) (hna : (a.map (·.1)).Nodup) (hsb : StrKeys b) (hnb : (b.map (·.1)).Nodup)
+    (h : ∀ k, (∃ s, k = .str s) →
+      (∀ x, dictGet a k = some x → ∃ y, dictGet b k = some y ∧ pyEq x y = true) ∧ (dictGet a k = Option.none → dictGet b k = Option.none)) :
+    pyEq (.dict a) (.dict b) = true := by
+  simp only [pyEq, Bool.and_eq_true, beq_iff_eq]
+  constructor
+  · have hperm : (a.map (·.1)).Perm (b.map (·.1)) := by
+      rw [List.perm_ext_iff_of_nodup hna hnb]
+      intro k
+      constructor
+      · intro hk
+        obtain ⟨p, hp, rfl⟩ := List.mem_map.1 hk
+        have hks := hsa p hp
+        have hg : dictGet a p.1 = some p.2 := dictGet_of_mem a hsa hna p.1 p.2 hp
+        obtain ⟨y, hy, _⟩ := (h p.1 hks).1 p.2 hg
+        exact List.mem_map.2 ⟨(p.1, y), mem_of_dictGet b hsb p.1 y hks hy, rfl⟩
+      · intro hk
+        obtain ⟨p, hp, rfl⟩ := List.mem_map.1 hk
+        have hks := hsb p hp
+        rcases Classical.em (p.1 ∈ a.map (·.1)) with hin | hnot
+        · exact hin
+        · have hnone := (dictGet_none_iff a hsa p.1 hks).2 hnot
+          have := (h p.1 hks).2 hnone
+          rw [dictGet_of_mem b hsb hnb p.1 p.2 hp] at this
+          cases this
+    have := hperm.length_eq
+    simpa using this
+  · apply dictSub_of_forall
+    intro p hp
+    have hg : dictGet a p.1 = some p.2 := dictGet_of_mem a hsa hna p.1 p.2 hp
+    exact (h p.1 (hsa p hp)).1 p.2 hg
+
+theorem diffV_basic_opcodes (cfg : DCfg) (al : Align) (hashOf : PyVal → String) (st : List Step) (a b : PyVal) (ha : isBasic a = true) :
+    (diffV cfg al hashOf st a b).opcodes = [] := by
+  cases a <;> simp [isBasic] at ha <;> simp only [diffV] <;> split <;> rfl
+
+theorem flat_opcodes (cfg : DCfg) (al : Align) (hashOf : PyVal → String) (kvs1 kvs2 : List (PyVal × PyVal))
+    (hb1 : ∀ p ∈ kvs1, isBasic p.2 = true) : (diffV cfg al hashOf [] (.dict kvs1) (.dict kvs2)).opcodes = [] := by
+  have hch : ∀ k2s, ∀ q ∈ diffKVs cfg al hashOf [] kvs1 kvs2 k2s, q.2.opcodes = [] := by
+    intro k2s q hq
+    obtain ⟨k1, v1, kk, v2, hm, _, _, _, rfl⟩ := (mem_diffKVs cfg al hashOf [] kvs2 k2s kvs1 q).1 hq
+    simp only
+    split
+    · rfl
+    · exact diffV_basic_opcodes cfg al hashOf _ v1 v2 (hb1 (k1, v1) hm)
+  conv => lhs; unfold diffV
+  simp only
+  split <;> split
+  · rfl
+  · simp only [Result.append_def, List.nil_append]
+    exact foldl_opcodes_nil _ _ (hch _)
+  · rfl
+  · simp only [Result.append_def, List.nil_append]
+    exact foldl_opcodes_nil _ _ (hch _)
+
+/-! ### assembling the round trip -/
+
+theorem flatMap_opt {α β} (l : List α) (f : α → List β) (h : α → β) (p : α → Bool)
+    (hp : ∀ x ∈ l, (p x = true → f x = [h x]) ∧ (p x = false → f x = [])) : l.flatMap f = (l.filter p).map h := by
+  induction l with
+  | nil => rfl
+  | cons x l ih =>
+    have ih' := ih (fun y hy => hp y (List.mem_cons_of_mem _ hy))
+    obtain ⟨h1, h2⟩ := hp x (List.mem_cons_self ..)
+    cases hpx : p x with
+    | true => simp only [List.flatMap_cons, h1 hpx, List.filter_cons, hpx, if_true, List.map_cons, ih', List.singleton_append]
+    | false => simp only [List.flatMap_cons, h2 hpx, List.filter_cons, hpx, Bool.false_eq_true, if_false, ih', List.nil_append]
+
+theorem flatMap_nil' {α β} (l : List α) : l.flatMap (fun _ => ([] : List β)) = [] := by
+  induction l with
+  | nil => rfl
+  | cons x l ih => simp [List.flatMap_cons, ih]
+
+/-- what a `type_changes` entry writes is the new value, or a value `==` to it -/
+theorem resolve_tc (directed always : Bool) (k a b : PyVal) :
+    ∃ res, resolve true (tcChange directed always k a b) a = some res ∧ (res = b ∨ pyEq res b = true) := by
+  unfold resolve tcChange
+  cases hc : castTo (typeName b) a with
+  | none => simp
+  | some c =>
+    by_cases he : pyEq c b = true
+    · cases always <;> simp [he, hc]
+    · have he' : pyEq c b = false := by simpa using he
+      simp [he']
+
+theorem valAt_basic (kvs : List (PyVal × PyVal)) (hb : ∀ p ∈ kvs, isBasic p.2 = true) (k : PyVal) : isBasic (valAt kvs k) = true := by
+  unfold valAt dictGet
+  cases hf : kvs.find? (fun p => keyEq p.1 k) with
+  | none => rfl
+  | some q => simpa using hb q (List.mem_of_find?_eq_some hf)
+
+theorem dictGet_valAt (kvs : List (PyVal × PyVal)) (hs : StrKeys kvs) (hn : (kvs.map (·.1)).Nodup) (k : PyVal) (hk : k ∈ kvs.map (·.1)) :
+    dictGet kvs k = some (valAt kvs k) := by
+  obtain ⟨p, hp, rfl⟩ := List.mem_map.1 hk
+  have := dictGet_of_mem kvs hs hn p.1 p.2 hp
+  simp [valAt, this]
+
+set_option maxHeartbeats 1000000 in
+/-- **Applying the payload of a flat diff tree.** For two dictionaries with string keys and scalar values the
+tree of the diff (added keys, removed keys, one child entry per shared key that differs) turns into a payload whose
+application to the first dictionary gives a dictionary `==` the second: every phase is a dictionary program
+(`applyDelta_flat`), the programs touch pairwise different keys, and the final lookup of every string key agrees. -/
+
+theorem flat_apply (directed always : Bool) (kvs1 kvs2 : List (PyVal × PyVal))
+    (hs1 : StrKeys kvs1) (hs2 : StrKeys kvs2) (hn1 : (kvs1.map (·.1)).Nodup) (hn2 : (kvs2.map (·.1)).Nodup)
+    (hb1 : ∀ p ∈ kvs1, isBasic p.2 = true) (hb2 : ∀ p ∈ kvs2, isBasic p.2 = true) (t1 t2 : PyVal) :
+    let k1 := kvs1.map (·.1)
+    let k2 := kvs2.map (·.1)
+    let T : Tree :=
+      (k2.filter (fun k => !k1.any (fun k' => keyEq k' k))).map (fun k => (Cat.dictAdded, addedLevel [] .dict k ((dictGet kvs2 k).getD .none))) ++
+      (k1.filter (fun k => !k2.any (fun k' => keyEq k' k))).map (fun k => (Cat.dictRemoved, removedLevel [] .dict k ((dictGet kvs1 k).getD .none))) ++
+      (k2.filter (fun k => k1.any (fun k' => keyEq k' k))).flatMap (fun k => childTree k (valAt kvs1 k) (valAt kvs2 k))
+    ∃ r, applyDelta false (buildDelta directed always t1 t2 ⟨T, []⟩) (.dict kvs1) = { root := r } ∧ pyEq r (.dict kvs2) = true := by
+  intro k1 k2 T
+  have hstr1 : ∀ k ∈ k1, ∃ s, k = .str s := by
+    intro k hk; obtain ⟨p, hp', rfl⟩ := List.mem_map.1 hk; exact hs1 p hp'
+  have hstr2 : ∀ k ∈ k2, ∃ s, k = .str s := by
+    intro k hk; obtain ⟨p, hp', rfl⟩ := List.mem_map.1 hk; exact hs2 p hp'
+  -- membership in the three key lists, as plain membership
+  have many1 : ∀ k, (∃ s, k = .str s) → (k1.any (fun k' => keyEq k' k) = true ↔ k ∈ k1) := by
+    intro k hk
+    rw [List.any_eq_true]
+    constructor
+    · rintro ⟨k', hk', he⟩; exact (keyEq_str_iff (hstr1 k' hk') hk).1 he ▸ hk'
+    · intro h; exact ⟨k, h, (keyEq_str_iff hk hk).2 rfl⟩
+  have many2 : ∀ k, (∃ s, k = .str s) → (k2.any (fun k' => keyEq k' k) = true ↔ k ∈ k2) := by
+    intro k hk
+    rw [List.any_eq_true]
+    constructor
+    · rintro ⟨k', hk', he⟩; exact (keyEq_str_iff (hstr2 k' hk') hk).1 he ▸ hk'
+    · intro h; exact ⟨k, h, (keyEq_str_iff hk hk).2 rfl⟩
+  let added := k2.filter (fun k => !k1.any (fun k' => keyEq k' k))
+  let removed := k1.filter (fun k => !k2.any (fun k' => keyEq k' k))
+  let inter := k2.filter (fun k => k1.any (fun k' => keyEq k' k))
+  have mem_added : ∀ k, k ∈ added ↔ k ∈ k2 ∧ k ∉ k1 := by
+    intro k
+    simp only [added, List.mem_filter, Bool.not_eq_true']
+    constructor
+    · rintro ⟨h2, hf⟩
+      refine ⟨h2, fun h1 => ?_⟩
+      rw [(many1 k (hstr2 k h2)).2 h1] at hf; cases hf
+    · rintro ⟨h2, h1⟩
+      refine ⟨h2, ?_⟩
+      cases hany : k1.any (fun k' => keyEq k' k) with
+      | false => rfl
+      | true => exact absurd ((many1 k (hstr2 k h2)).1 hany) h1
+  have mem_removed : ∀ k, k ∈ removed ↔ k ∈ k1 ∧ k ∉ k2 := by
+    intro k
+    simp only [removed, List.mem_filter, Bool.not_eq_true']
+    constructor
+    · rintro ⟨h1, hf⟩
+      refine ⟨h1, fun h2 => ?_⟩
+      rw [(many2 k (hstr1 k h1)).2 h2] at hf; cases hf
+    · rintro ⟨h1, h2⟩
+      refine ⟨h1, ?_⟩
+      cases hany : k2.any (fun k' => keyEq k' k) with
+      | false => rfl
+      | true => exact absurd ((many2 k (hstr1 k h1)).1 hany) h2
+  have mem_inter : ∀ k, k ∈ inter ↔ k ∈ k2 ∧ k ∈ k1 := by
+    intro k
+    simp only [inter, List.mem_filter]
+    constructor
+    · rintro ⟨h2, hany⟩; exact ⟨h2, (many1 k (hstr2 k h2)).1 hany⟩
+    · rintro ⟨h2, h1⟩; exact ⟨h2, (many1 k (hstr2 k h2)).2 h1⟩
+  -- the per-key classification
+  let A : PyVal → PyVal := valAt kvs1
+  let B : PyVal → PyVal := valAt kvs2
+  let VC : PyVal → List Change := fun k => catMap .valuesChanged (vcF directed) (childTree k (A k) (B k))
+  let TC : PyVal → List Change := fun k => catMap .typeChanges (tcF directed always) (childTree k (A k) (B k))
+  let pV : PyVal → Bool := fun k => !(VC k).isEmpty
+  let pT : PyVal → Bool := fun k => !(TC k).isEmpty
+  have hkk : ∀ k : PyVal, (∃ s, k = PyVal.str s) → (k == k) = true := by
+    rintro k ⟨s, rfl⟩
+    show strictEq (PyVal.str s) (PyVal.str s) = true
+    simp [strictEq]
+  have cls : ∀ k ∈ inter,
+      (pT k = true ∧ pV k = false ∧ TC k = [tcChange directed always k (A k) (B k)] ∧ VC k = []) ∨
+      (pT k = false ∧ pV k = false ∧ TC k = [] ∧ VC k = [] ∧ typeName (A k) = typeName (B k) ∧ leafDiff [⟨.dict, some k, some k⟩] (A k) (B k) = []) ∨
+      (pT k = false ∧ pV k = true ∧ TC k = [] ∧ VC k = [vcChange directed k (A k) (B k)]) := by
+    intro k hk
+    have hk2 := ((mem_inter k).1 hk).1
+    obtain ⟨_, _, h⟩ := catMap_child directed always k (A k) (B k) (hkk k (hstr2 k hk2))
+    rcases h with ⟨_, h1, h2⟩ | ⟨ht, hl, h1, h2⟩ | ⟨_, h1, h2⟩
+    · exact Or.inl ⟨by simp [pT, TC, h1], by simp [pV, VC, h2], h1, h2⟩
+    · exact Or.inr (Or.inl ⟨by simp [pT, TC, h1], by simp [pV, VC, h2], h1, h2, ht, hl⟩)
+    · exact Or.inr (Or.inr ⟨by simp [pT, TC, h1], by simp [pV, VC, h2], h1, h2⟩)
+  -- the fields of the payload
+  obtain ⟨fV, fT, fA, fR⟩ := build_fields directed always t1 t2 T
+  have hcatT : ∀ e ∈ T, e.1 = .typeChanges ∨ e.1 = .valuesChanged ∨ e.1 = .dictAdded ∨ e.1 = .dictRemoved := by
+    intro e he
+    simp only [T, List.mem_append, List.mem_map, List.mem_flatMap] at he
+    rcases he with (⟨k, _, rfl⟩ | ⟨k, _, rfl⟩) | ⟨k, _, hek⟩
+    · exact Or.inr (Or.inr (Or.inl rfl))
+    · exact Or.inr (Or.inr (Or.inr rfl))
+    · rcases childTree_cases k (valAt kvs1 k) (valAt kvs2 k) with ⟨_, h⟩ | ⟨_, h, _⟩ | ⟨_, ud, h⟩ <;> rw [h] at hek <;> simp at hek
+      · rw [hek]; exact Or.inl rfl
+      · rw [hek]; exact Or.inr (Or.inl rfl)
+  have he := build_empty directed always t1 t2 T hcatT
+  have hVC : (buildDelta directed always t1 t2 ⟨T, []⟩).valuesChanged = (inter.filter pV).map (fun k => vcChange directed k (A k) (B k)) := by
+    rw [fV]
+    simp only [T, catMap_append, catMap_flatMap]
+    rw [(catMap_added _ _).2 (β := Change) .valuesChanged (vcF directed) (by decide),
+      (catMap_removed _ _).2 (β := Change) .valuesChanged (vcF directed) (by decide), List.nil_append, List.nil_append]
+    apply flatMap_opt
+    intro k hk
+    rcases cls k hk with ⟨_, h2, _, h4⟩ | ⟨_, h2, _, h4, _⟩ | ⟨_, h2, _, h4⟩
+    · exact ⟨fun h => (by rw [h2] at h; cases h), fun _ => h4⟩
+    · exact ⟨fun h => (by rw [h2] at h; cases h), fun _ => h4⟩
+    · exact ⟨fun _ => h4, fun h => (by rw [h2] at h; cases h)⟩
+  have hTC : (buildDelta directed always t1 t2 ⟨T, []⟩).typeChanges = (inter.filter pT).map (fun k => tcChange directed always k (A k) (B k)) := by
+    rw [fT]
+    simp only [T, catMap_append, catMap_flatMap]
+    rw [(catMap_added _ _).2 (β := Change) .typeChanges (tcF directed always) (by decide),
+      (catMap_removed _ _).2 (β := Change) .typeChanges (tcF directed always) (by decide), List.nil_append, List.nil_append]
+    apply flatMap_opt
+    intro k hk
+    rcases cls k hk with ⟨h1, _, h3, _⟩ | ⟨h1, _, h3, _⟩ | ⟨h1, _, h3, _⟩
+    · exact ⟨fun _ => h3, fun h => (by rw [h1] at h; cases h)⟩
+    · exact ⟨fun h => (by rw [h1] at h; cases h), fun _ => h3⟩
+    · exact ⟨fun h => (by rw [h1] at h; cases h), fun _ => h3⟩
+  have hDA : (buildDelta directed always t1 t2 ⟨T, []⟩).dictAdded = added.map (fun k => (([k] : DPath), (dictGet kvs2 k).getD .none)) := by
+    rw [fA]
+    simp only [T, catMap_append, catMap_flatMap]
+    rw [(catMap_added _ _).1, (catMap_removed _ _).2 (β := DPath × PyVal) .dictAdded plainF (by decide)]
+    have : inter.flatMap (fun k => catMap Cat.dictAdded plainF (childTree k (valAt kvs1 k) (valAt kvs2 k))) = [] := by
+      rw [← flatMap_nil' (β := DPath × PyVal) inter]
+      apply flatMap_congr'
+      intro k hk
+      exact (catMap_child directed always k _ _ (hkk k (hstr2 k ((mem_inter k).1 hk).1))).1
+    rw [this]; simp; rfl
+  have hDR : (buildDelta directed always t1 t2 ⟨T, []⟩).dictRemoved = removed.map (fun k => (([k] : DPath), (dictGet kvs1 k).getD .none)) := by
+    rw [fR]
+    simp only [T, catMap_append, catMap_flatMap]
+    rw [(catMap_added _ _).2 (β := DPath × PyVal) .dictRemoved plainF (by decide), (catMap_removed _ _).1]
+    have : inter.flatMap (fun k => catMap Cat.dictRemoved plainF (childTree k (valAt kvs1 k) (valAt kvs2 k))) = [] := by
+      rw [← flatMap_nil' (β := DPath × PyVal) inter]
+      apply flatMap_congr'
+      intro k hk
+      exact (catMap_child directed always k _ _ (hkk k (hstr2 k ((mem_inter k).1 hk).1))).2.1
+    rw [this]; simp; rfl
+  -- the items of the two change phases
+  have hinterN : inter.Nodup := hn2.sublist List.filter_sublist
+  have hk1of : ∀ k ∈ inter, k ∈ k1 := fun k hk => ((mem_inter k).1 hk).2
+  have hk2of : ∀ k ∈ inter, k ∈ k2 := fun k hk => ((mem_inter k).1 hk).1
+  let resT : PyVal → PyVal := fun k => (resolve true (tcChange directed always k (A k) (B k)) (A k)).getD (B k)
+  have hresT : ∀ k, resolve true (tcChange directed always k (A k) (B k)) (A k) = some (resT k) ∧ (resT k = B k ∨ pyEq (resT k) (B k) = true) := by
+    intro k
+    obtain ⟨res, h1, h2⟩ := resolve_tc directed always k (A k) (B k)
+    have : resT k = res := by simp [resT, h1]
+    rw [this]; exact ⟨h1, h2⟩
+  let vcI : List ChItem := (inter.filter pV).map (fun k => ⟨vcChange directed k (A k) (B k), k, A k, B k⟩)
+  let tcI : List ChItem := (inter.filter pT).map (fun k => ⟨tcChange directed always k (A k) (B k), k, A k, resT k⟩)
+  let adds : List (PyVal × PyVal) := added.map (fun k => (k, (dictGet kvs2 k).getD .none))
+  let rems : List (DPath × PyVal) := removed.map (fun k => (([k] : DPath), (dictGet kvs1 k).getD .none))
+  have kvcI : vcI.map (·.k) = inter.filter pV := by simp [vcI, List.map_map, Function.comp_def]
+  have ktcI : tcI.map (·.k) = inter.filter pT := by simp [tcI, List.map_map, Function.comp_def]
+  have kadds : adds.map (·.1) = added := by simp [adds, List.map_map, Function.comp_def]
+  have krems : rems.map (fun e => e.1.headD .none) = removed := by simp [rems, List.map_map, Function.comp_def]
+  have hdisj : (vcI.map (·.k) ++ tcI.map (·.k) ++ adds.map (·.1) ++ rems.map (fun e => e.1.headD .none)).Nodup := by
+    rw [kvcI, ktcI, kadds, krems]
+    rw [List.nodup_append]
+    refine ⟨?_, hn1.sublist List.filter_sublist, ?_⟩
+    · rw [List.nodup_append]
+      refine ⟨?_, hn2.sublist List.filter_sublist, ?_⟩
+      · rw [List.nodup_append]
+        refine ⟨hinterN.sublist List.filter_sublist, hinterN.sublist List.filter_sublist, ?_⟩
+        intro a ha b hb hab
+        subst hab
+        obtain ⟨hi, hv⟩ := List.mem_filter.1 ha
+        obtain ⟨_, ht⟩ := List.mem_filter.1 hb
+        rcases cls a hi with ⟨_, h2, _⟩ | ⟨h1, _⟩ | ⟨h1, _⟩
+        · rw [h2] at hv; cases hv
+        · rw [h1] at ht; cases ht
+        · rw [h1] at ht; cases ht
+      · intro a ha b hb hab
+        subst hab
+        have hi : a ∈ inter := by
+          rcases List.mem_append.1 ha with h | h <;> exact (List.mem_filter.1 h).1
+        exact ((mem_added a).1 hb).2 (hk1of a hi)
+    · intro a ha b hb hab
+      subst hab
+      have h2 : a ∈ k2 := by
+        rcases List.mem_append.1 ha with h | h
+        · rcases List.mem_append.1 h with h | h <;> exact hk2of a (List.mem_filter.1 h).1
+        · exact ((mem_added a).1 h).1
+      exact ((mem_removed a).1 hb).2 h2
+  obtain ⟨ys, hperm, happly⟩ := applyDelta_flat (buildDelta directed always t1 t2 ⟨T, []⟩) kvs1 hs1 hn1 vcI tcI adds rems
+    (by rw [hVC]; simp [vcI, List.map_map, Function.comp_def])
+    (by rw [hTC]; simp [tcI, List.map_map, Function.comp_def])
+    (by rw [hDA]; simp [adds, List.map_map, Function.comp_def])
+    (by rw [hDR])
+    he
+    (by
+      intro i hi
+      obtain ⟨k, hk, rfl⟩ := List.mem_map.1 hi
+      have hki := (List.mem_filter.1 hk).1
+      exact ⟨rfl, by simp [resolve, vcChange], hstr2 k (hk2of k hki), dictGet_valAt kvs1 hs1 hn1 k (hk1of k hki)⟩)
+    (by
+      intro i hi
+      obtain ⟨k, hk, rfl⟩ := List.mem_map.1 hi
+      have hki := (List.mem_filter.1 hk).1
+      exact ⟨rfl, (hresT k).1, hstr2 k (hk2of k hki), dictGet_valAt kvs1 hs1 hn1 k (hk1of k hki)⟩)
+    (by
+      intro p hp
+      obtain ⟨k, hk, rfl⟩ := List.mem_map.1 hp
+      exact hstr2 k ((mem_added k).1 hk).1)
+    (by
+      intro e he'
+      obtain ⟨k, hk, rfl⟩ := List.mem_map.1 he'
+      have hk1m := ((mem_removed k).1 hk).1
+      exact ⟨k, rfl, hstr1 k hk1m, _, dictGet_valAt kvs1 hs1 hn1 k hk1m⟩)
+    hdisj
+  refine ⟨_, happly, ?_⟩
+  generalize hops : (vcI.map (fun i => (i.k, some i.res)) ++ tcI.map (fun i => (i.k, some i.res)) ++
+      adds.map (fun p => (p.1, some p.2)) ++ ys.map (fun e => (e.1.headD .none, Option.none)) : List (PyVal × Option PyVal)) = ops
+  have hkeys : ops.map (·.1) = vcI.map (·.k) ++ tcI.map (·.k) ++ adds.map (·.1) ++ ys.map (fun e => e.1.headD .none) := by
+    rw [← hops]; simp [List.map_append, List.map_map, Function.comp_def]
+  have hpk : (ys.map (fun e => e.1.headD .none)).Perm removed := by
+    rw [← krems]; exact hperm.map _
+  have hkeysP : (ops.map (·.1)).Perm (inter.filter pV ++ inter.filter pT ++ added ++ removed) := by
+    rw [hkeys, kvcI, ktcI, kadds]
+    exact List.Perm.append_left _ hpk
+  have hnd : (ops.map (·.1)).Nodup := by
+    rw [hkeysP.nodup_iff]
+    rw [kvcI, ktcI, kadds, krems] at hdisj
+    exact hdisj
+  have memK : ∀ k, k ∈ ops.map (·.1) ↔ (k ∈ inter ∧ pV k = true) ∨ (k ∈ inter ∧ pT k = true) ∨ k ∈ added ∨ k ∈ removed := by
+    intro k
+    rw [hkeysP.mem_iff]
+    simp only [List.mem_append, List.mem_filter, or_assoc]
+  have hsops : ∀ op ∈ ops, ∃ s, op.1 = .str s := by
+    intro op hop
+    have hm : op.1 ∈ ops.map (·.1) := List.mem_map.2 ⟨op, hop, rfl⟩
+    rcases (memK op.1).1 hm with ⟨h, _⟩ | ⟨h, _⟩ | h | h
+    · exact hstr2 _ (hk2of _ h)
+    · exact hstr2 _ (hk2of _ h)
+    · exact hstr2 _ ((mem_added _).1 h).1
+    · exact hstr1 _ ((mem_removed _).1 h).1
+  obtain ⟨hsR, hnR, g⟩ := runOps_spec ops kvs1 hs1 hn1 hsops hnd
+  apply pyEq_dict_of_lookup _ _ hsR hnR hs2 hn2
+  intro k hk
+  obtain ⟨gin, gout⟩ := g k hk
+  have hB : ∀ k, pyEq (B k) (B k) = true := fun k => pyEq_refl_basic' _ (valAt_basic kvs2 hb2 k)
+  by_cases h2 : k ∈ k2
+  · have hg2 : dictGet kvs2 k = some (B k) := dictGet_valAt kvs2 hs2 hn2 k h2
+    by_cases h1 : k ∈ k1
+    · have hi := (mem_inter k).2 ⟨h2, h1⟩
+      rcases cls k hi with ⟨cT, cV, _, _⟩ | ⟨cT, cV, _, _, ht, hl⟩ | ⟨cT, cV, _, _⟩
+      · have hm : (k, some (resT k)) ∈ ops := by
+          rw [← hops]
+          apply List.mem_append_left; apply List.mem_append_left; apply List.mem_append_right
+          exact List.mem_map.2 ⟨⟨tcChange directed always k (A k) (B k), k, A k, resT k⟩,
+            List.mem_map.2 ⟨k, List.mem_filter.2 ⟨hi, cT⟩, rfl⟩, rfl⟩
+        have hget := gin _ hm
+        constructor
+        · intro x hx
+          rw [hget] at hx; cases hx
+          refine ⟨B k, hg2, ?_⟩
+          rcases (hresT k).2 with h | h
+          · rw [h]; exact hB k
+          · exact h
+        · intro hnone; rw [hget] at hnone; cases hnone
+      · have hnot : k ∉ ops.map (·.1) := by
+          rw [memK]
+          rintro (⟨_, h⟩ | ⟨_, h⟩ | h | h)
+          · rw [cV] at h; cases h
+          · rw [cT] at h; cases h
+          · exact ((mem_added k).1 h).2 h1
+          · exact ((mem_removed k).1 h).2 h2
+        have hget := gout hnot
+        rw [dictGet_valAt kvs1 hs1 hn1 k h1] at hget
+        constructor
+        · intro x hx
+          rw [hget] at hx; cases hx
+          exact ⟨B k, hg2, leafDiff_nil _ _ _ (valAt_basic kvs1 hb1 k) ht hl⟩
+        · intro hnone; rw [hget] at hnone; cases hnone
+      · have hm : (k, some (B k)) ∈ ops := by
+          rw [← hops]
+          apply List.mem_append_left; apply List.mem_append_left; apply List.mem_append_left
+          exact List.mem_map.2 ⟨⟨vcChange directed k (A k) (B k), k, A k, B k⟩,
+            List.mem_map.2 ⟨k, List.mem_filter.2 ⟨hi, cV⟩, rfl⟩, rfl⟩
+        have hget := gin _ hm
+        constructor
+        · intro x hx
+          rw [hget] at hx; cases hx
+          exact ⟨B k, hg2, hB k⟩
+        · intro hnone; rw [hget] at hnone; cases hnone
+    · have ha : k ∈ added := (mem_added k).2 ⟨h2, h1⟩
+      have hm : (k, some ((dictGet kvs2 k).getD .none)) ∈ ops := by
+        rw [← hops]
+        apply List.mem_append_left; apply List.mem_append_right
+        exact List.mem_map.2 ⟨(k, (dictGet kvs2 k).getD .none), List.mem_map.2 ⟨k, ha, rfl⟩, rfl⟩
+      have hget := gin _ hm
+      rw [hg2] at hget
+      constructor
+      · intro x hx
+        rw [hget] at hx
+        simp only [Option.getD_some, Option.some.injEq] at hx
+        subst hx
+        exact ⟨B k, hg2, hB k⟩
+      · intro hnone; rw [hget] at hnone; cases hnone
+  · have hg2 : dictGet kvs2 k = Option.none := (dictGet_none_iff kvs2 hs2 k hk).2 h2
+    by_cases h1 : k ∈ k1
+    · have hr : k ∈ removed := (mem_removed k).2 ⟨h1, h2⟩
+      have hm : (k, Option.none) ∈ ops := by
+        rw [← hops]
+        apply List.mem_append_right
+        have : (([k] : DPath), (dictGet kvs1 k).getD .none) ∈ ys :=
+          hperm.mem_iff.2 (List.mem_map.2 ⟨k, hr, rfl⟩)
+        exact List.mem_map.2 ⟨_, this, rfl⟩
+      have hget := gin _ hm
+      constructor
+      · intro x hx; rw [hget] at hx; cases hx
+      · intro _; exact hg2
+    · have hnot : k ∉ ops.map (·.1) := by
+        rw [memK]
+        rintro (⟨h, _⟩ | ⟨h, _⟩ | h | h)
+        · exact h2 (hk2of k h)
+        · exact h2 (hk2of k h)
+        · exact h2 ((mem_added k).1 h).1
+        · exact h1 ((mem_removed k).1 h).1
+      have hget := gout hnot
+      rw [(dictGet_none_iff kvs1 hs1 k hk).2 h1] at hget
+      constructor
+      · intro x hx; rw [hget] at hx; cases hx
+      · intro _; exact hg2
+
+theorem pyEq_dict_self (kvs : List (PyVal × PyVal)) (hs : StrKeys kvs) (hn : (kvs.map (·.1)).Nodup)
+    (hb : ∀ p ∈ kvs, isBasic p.2 = true) : pyEq (.dict kvs) (.dict kvs) = true := by
+  apply pyEq_dict_of_lookup kvs kvs hs hn hs hn
+  intro k hk
+  refine ⟨fun x hx => ⟨x, hx, ?_⟩, fun h => h⟩
+  exact pyEq_refl_basic' x (hb _ (mem_of_dictGet kvs hs k x hk hx))
+
+/-- the "too different" shortcut: one `values_changed` at the root -/
+theorem flat_shortcut {cfg : DCfg} (hp : Diff.Plain cfg) (al : Align) (hashOf : PyVal → String) (kvs1 kvs2 : List (PyVal × PyVal))
+    (hpriv : ∀ k, k ∈ kvs1.map (·.1) ∨ k ∈ kvs2.map (·.1) → (cfg.ignorePrivate && isPrivate k) = false)
+    (hthr : belowThreshold cfg ((kvs2.map (·.1)).filter (fun k => (kvs1.map (·.1)).any (fun k' => keyEq k' k))).length
+              ((kvs2.map (·.1)) ++ (kvs1.map (·.1)).filter (fun k => !(kvs2.map (·.1)).any (fun k' => keyEq k' k))).length = true) :
+    diffV cfg al hashOf [] (.dict kvs1) (.dict kvs2) =
+      ⟨[(.valuesChanged, { steps := [], t1 := some (.dict kvs1), t2 := some (.dict kvs2) })], []⟩ := by
+  have hk1 := keysOf_plain hp [] kvs1 (fun k hk => hpriv k (Or.inl hk))
+  have hk2 := keysOf_plain hp [] kvs2 (fun k hk => hpriv k (Or.inr hk))
+  conv => lhs; unfold diffV
+  simp only [hk1, hk2, hp.ex, List.isEmpty_nil, if_true, hthr]
+
+/-- the round trip for two flat dictionaries (string keys, scalar values), every plain configuration -/
+theorem flat_dict_roundtrip (cfg : DCfg) (hp : Diff.Plain cfg) (al : Align) (hashOf : PyVal → String) (directed always : Bool)
+    (kvs1 kvs2 : List (PyVal × PyVal))
+    (hs1 : StrKeys kvs1) (hs2 : StrKeys kvs2) (hn1 : (kvs1.map (·.1)).Nodup) (hn2 : (kvs2.map (·.1)).Nodup)
+    (hb1 : ∀ p ∈ kvs1, isBasic p.2 = true) (hb2 : ∀ p ∈ kvs2, isBasic p.2 = true)
+    (hpriv : ∀ k, k ∈ kvs1.map (·.1) ∨ k ∈ kvs2.map (·.1) → (cfg.ignorePrivate && isPrivate k) = false) :
+    ∃ r, applyDelta false (buildDelta directed always (.dict kvs1) (.dict kvs2) (deepDiff cfg al hashOf (.dict kvs1) (.dict kvs2))) (.dict kvs1)
+        = { root := r } ∧ pyEq r (.dict kvs2) = true := by
+  have hk : ∀ t, keepReported cfg t = t := keepReported_plain hp
+  have hd : (if skipSteps cfg [] then ({} : Result) else diffV cfg al hashOf [] (.dict kvs1) (.dict kvs2)) = diffV cfg al hashOf [] (.dict kvs1) (.dict kvs2) := by
+    simp [skipSteps_plain hp]
+  cases hthr : belowThreshold cfg ((kvs2.map (·.1)).filter (fun k => (kvs1.map (·.1)).any (fun k' => keyEq k' k))).length
+              ((kvs2.map (·.1)) ++ (kvs1.map (·.1)).filter (fun k => !(kvs2.map (·.1)).any (fun k' => keyEq k' k))).length with
+  | true =>
+    have hdd : deepDiff cfg al hashOf (.dict kvs1) (.dict kvs2) =
+        ⟨[(.valuesChanged, { steps := [], t1 := some (.dict kvs1), t2 := some (.dict kvs2) })], []⟩ := by
+      unfold deepDiff
+      rw [hd, flat_shortcut hp al hashOf kvs1 kvs2 hpriv hthr]
+      simp only [hk]
+      split
+      · rfl
+      · simp [mutualAddRemoves]
+    rw [hdd]
+    exact ⟨.dict kvs2, roundtrip_root_value directed always _ _ _, pyEq_dict_self kvs2 hs2 hn2 hb2⟩
+  | false =>
+    have htree := flat_tree hp al hashOf kvs1 kvs2 hs1 hs2 hn1 hn2 hpriv hthr
+    have hops := flat_opcodes cfg al hashOf kvs1 kvs2 hb1
+    have hch : ((kvs2.map (·.1)).filter (fun k => (kvs1.map (·.1)).any (fun k' => keyEq k' k))).flatMap
+          (fun k => (diffV cfg al hashOf [⟨.dict, some k, some k⟩] (valAt kvs1 k) (valAt kvs2 k)).tree) =
+        ((kvs2.map (·.1)).filter (fun k => (kvs1.map (·.1)).any (fun k' => keyEq k' k))).flatMap
+          (fun k => childTree k (valAt kvs1 k) (valAt kvs2 k)) := by
+      apply flatMap_congr'
+      intro k _
+      rw [diffV_basic cfg al hashOf _ _ _ (valAt_basic kvs1 hb1 k)]
+      rfl
+    rw [hch] at htree
+    generalize hT : ((kvs2.map (·.1)).filter (fun k => !(kvs1.map (·.1)).any (fun k' => keyEq k' k))).map
+          (fun k => (Cat.dictAdded, addedLevel [] .dict k ((dictGet kvs2 k).getD .none))) ++
+      ((kvs1.map (·.1)).filter (fun k => !(kvs2.map (·.1)).any (fun k' => keyEq k' k))).map
+          (fun k => (Cat.dictRemoved, removedLevel [] .dict k ((dictGet kvs1 k).getD .none))) ++
+      ((kvs2.map (·.1)).filter (fun k => (kvs1.map (·.1)).any (fun k' => keyEq k' k))).flatMap
+          (fun k => childTree k (valAt kvs1 k) (valAt kvs2 k)) = T at htree
+    have hcatT : ∀ e ∈ T, e.1 ≠ Cat.iterAdded ∧ e.1 ≠ Cat.iterRemoved := by
+      intro e he
+      rw [← hT] at he
+      simp only [List.mem_append, List.mem_map, List.mem_flatMap] at he
+      rcases he with (⟨k, _, rfl⟩ | ⟨k, _, rfl⟩) | ⟨k, _, hek⟩
+      · exact ⟨by simp, by simp⟩
+      · exact ⟨by simp, by simp⟩
+      · rcases childTree_cases k (valAt kvs1 k) (valAt kvs2 k) with ⟨_, h⟩ | ⟨_, h, _⟩ | ⟨_, ud, h⟩ <;> rw [h] at hek <;> simp at hek
+        · rw [hek]; exact ⟨by simp, by simp⟩
+        · rw [hek]; exact ⟨by simp, by simp⟩
+    have hdd : deepDiff cfg al hashOf (.dict kvs1) (.dict kvs2) = ⟨T, []⟩ := by
+      unfold deepDiff
+      rw [hd]
+      simp only [hk, htree, hops]
+      split
+      · rfl
+      · simp only [mutualAddRemoves_noiter T hcatT]
+    rw [hdd, ← hT]
+    exact flat_apply directed always kvs1 kvs2 hs1 hs2 hn1 hn2 hb1 hb2 _ _
 
 end Delta
